@@ -654,6 +654,28 @@ def kfifo(ctx):
                   "in_valid_region(tail_old=%s, tail=%s, head=%s) returns %s but tail_old is %s the window (head, tail]: a push whose segment fell out of the window is "
                   "accepted as committed (element stranded: false empty, unbounded overtaking) or a valid one is rolled back" % (
                       (bad + ("inside" if not bad[3] else "outside",)) if bad else (0, 0, 0, 0, "")), fn.where(), fn=fn)
+    # the complementary predicate: an insertion whose segment lies strictly outside [head, tail] must be rolled back
+    for fn in flow._shapes(ctx, B_ + "not_in_valid_region"):
+        if len(fn.params) != 3:
+            ctx.broken.append("not_in_valid_region: expected three parameters")
+            continue
+        names = [p_["name"] for p_ in fn.params]
+        N = 6 if ctx.tier != "thorough" else 10
+        bad = None
+        try:
+            for to in range(N):
+                for tc in range(N):
+                    for hc in range(N):
+                        outside = ((to - hc) % N) > ((tc - hc) % N)     # tail_old not in the closed circular interval [head, tail]
+                        if outside and not bool(eval_pure(fn, dict(zip(names, (to, tc, hc))))) and bad is None:
+                            bad = (to, tc, hc)
+        except Unknown as ex:
+            ctx.broken.append("not_in_valid_region not evaluable: %s" % ex)
+            continue
+        ctx.check(bad is None, rid4, B_ + "not_in_valid_region#outside=>rollback", "true for every tail_old outside [head, tail] on all %d triples" % (N ** 3),
+                  "not_in_valid_region(tail_old=%s, tail=%s, head=%s) returns false although tail_old lies outside [head, tail]: committed() then treats the insertion as "
+                  "'at the head segment' and accepts it after a tag-only CAS on head - the push reports success but its element sits in a segment that pops do not "
+                  "reach (pop reports empty while the element is stored; it is overtaken by every element pushed until the ring wraps)" % (bad or (0, 0, 0)), fn.where(), fn=fn)
     # the slot scan of a segment is complete for every random start offset
     rid6 = "KF.scan-complete"
     ctx.rule(rid6, "k-FIFO find_index: for every k in {1,2,3,5} and every random start offset the scanned indices are exactly the k slots of the segment "
